@@ -42,7 +42,7 @@ from rv.sim import Bench
 PROPERTY = "C27"
 CASES = {"quick": 640, "thorough": 12800}
 RULE = ("case = one generator configuration (kind, data of 1..70 bytes, word width, endianness, with/without max_length port) "
-        "and a session of 10-30 runs (start position, max_length, ready profile, restart delay); non-trivial = the session "
+        "and a session of 12-36 runs (start position, max_length, ready profile, restart delay); non-trivial = the session "
         "contained a run ended by max_length, a run ended by the data length and a stall on a last word; distinct = hash of "
         "configuration + run parameters + ready stream")
 REQUIRED_BINS = [
@@ -183,14 +183,19 @@ def build(cfg, res):
             return False
         if last_bytes != (tail or cfg.W):
             return False
-        out = b""
         for i, w in enumerate(init):
             n = cfg.W if (i < full) else tail
-            out += int(w).to_bytes(n, cfg.endian) if w < (1 << (8 * n)) else b"\xff" * (n + 1)
-        return out == cfg.data
+            exp = cfg.data[i * cfg.W:i * cfg.W + n]
+            if not 0 <= int(w) < (1 << (8 * cfg.W)):
+                return False
+            word = int(w).to_bytes(cfg.W, cfg.endian)
+            # a partial final word may be padded on either side in big-endian mode (layout not specified)
+            if not (word[:n] == exp or (cfg.endian == "big" and word[cfg.W - n:] == exp)):
+                return False
+        return True
 
     orig = ConstantStreamGenerator._get_initializer_value
-    wrapped = icontract.ensure(lambda result: roundtrip(result), "ROM initializer decodes back to the constant")(orig)
+    wrapped = icontract.ensure(roundtrip, "ROM initializer decodes back to the constant")(orig)
 
     vw, pw = cfg.vw, cfg.pw
 
@@ -573,7 +578,7 @@ def run_case(rng, tier, res):
         garbage_inputs()
         for _ in range(rng.randint(1, 4)):
             yield
-        n_runs = rng.randint(10, 30)
+        n_runs = rng.randint(12, 36)
         for run in range(n_runs):
             o["run"] = run
             p, m = draw_run()
